@@ -10,6 +10,7 @@ From Coq Require Import List NArith Bool Lia Sorted.
 Import ListNotations.
 Require Import EV.Base EV.ListN EV.Access EV.Query EV.SlotMap EV.Reserve EV.HList EV.Loop EV.World EV.SlotMapGet
   EV.ArchProofs EV.QueryProofs EV.WorldFrame EV.Store EV.Graph EV.Effects EV.Reach EV.RemoveComp EV.Member.
+Require EV.HListProofs.
 Open Scope N_scope.
 
 (* ---------- a view of the archetypes that row / capacity / transition updates do not change ---------- *)
@@ -668,10 +669,9 @@ Proof. intros [[A B] C]. auto. Qed.
 
 Lemma HL_conv_gl w w2 : w_hs w2 = w_hs w -> w_horder w2 = w_horder w -> w_hctr w2 = w_hctr w -> w_archs w2 = w_archs w ->
   (forall idx, glist_of w2 idx = glist_of w idx) ->
-  (forall k, sm_get k (w_gev w) <> None -> sm_get k (w_gev w2) <> None) -> (forall k, sm_get k (w_tev w) <> None -> sm_get k (w_tev w2) <> None) ->
   HL w -> HL w2.
 Proof.
-  intros Ehs Eho Ehc Ear Egl Eg Et ((S & H1 & H2 & H3) & (L1 & L2)). unfold HL, HInv, LInv, hlive, arch_at in *. rewrite Ehs, Eho, Ehc, Ear.
+  intros Ehs Eho Ehc Ear Egl ((S & H1 & H2 & H3) & (L1 & L2)). unfold HL, HInv, LInv, hlive, arch_at in *. rewrite Ehs, Eho, Ehc, Ear.
   split; [auto|]. split; [exact L1|]. intros idx. rewrite Egl. apply L2.
 Qed.
 
@@ -700,10 +700,8 @@ Proof.
     { destruct (AI_parts _ HA) as ([[HW HK] HKK] & HH & HG). split; [split; [split; [split; [eapply WInv_ext; [| | |exact HW]; reflexivity|]|exact HKK]|]|].
       - intros i k' info Hg. unfold w2 in Hg. cbn [w_gev set_glists set_hreg set_gev] in Hg.
         destruct (gbi_insert _ _ _ _ _ _ _ Ei Hg) as [->|Hold]; [|eauto]. cbn [e_kind]. unfold gkind. now destruct (tag =? G_SPAWN).
-      - apply (HL_conv_gl w w2); try reflexivity; [| |intros k0 X; exact X|exact HH].
-        + intros idx. unfold glist_of, w2. cbn [w_glists set_glists set_hreg set_gev]. apply (glist_nrepeat w (w_glists w) _ eq_refl).
-        + intros k0 Hl. unfold w2. cbn [w_gev set_glists set_hreg set_gev]. rewrite (insert_get_other _ _ _ _ k0 HG Ei); [exact Hl|].
-          intros ->. apply Hl. eapply insert_get_fresh; eauto.
+      - apply (HL_conv_gl w w2); try reflexivity; [|exact HH].
+        intros idx. unfold glist_of, w2. cbn [w_glists set_glists set_hreg set_gev]. apply (glist_nrepeat w (w_glists w) _ eq_refl).
       - unfold GInv, w2. cbn [w_gev set_glists set_hreg set_gev]. eapply insert_inv; eauto. }
     destruct (IH G_ADDGE w2 HA2) as [_ Hs]. specialize (Hs (mkEv 0 0 k)).
     destruct (send_global beh f G_ADDGE (mkEv 0 0 k) w2); exact Hs. }
@@ -727,7 +725,7 @@ Lemma HL_GInv_conv w w' : w_hs w' = w_hs w -> w_horder w' = w_horder w -> w_hctr
   (forall k, sm_get k (w_tev w) <> None -> sm_get k (w_tev w') <> None) -> HL w /\ GInv w -> HL w' /\ GInv w'.
 Proof.
   intros A B C D E F G [HH HG]. split.
-  - apply (HL_conv_gl w w'); auto; [intros idx; unfold glist_of; now rewrite E|intros k X; now rewrite F].
+  - apply (HL_conv_gl w w'); auto. intros idx; unfold glist_of; now rewrite E.
   - unfold GInv. now rewrite F.
 Qed.
 
@@ -1052,3 +1050,288 @@ Proof.
   - unfold GInv in *. rewrite Hg. exact HG1.
 Qed.
 End Ops3.
+
+(* ---------- remove_handler ---------- *)
+Lemma key_eqb_spec (a b : key) : key_eqb a b = true <-> a = b.
+Proof.
+  unfold key_eqb. rewrite andb_true_iff, !N.eqb_eq. destruct a, b; cbn. split; [intros [-> ->]; reflexivity|intros H; inversion H; auto].
+Qed.
+
+Lemma hl_remove_spec (l : hlist key) k : NoDup (hl_entries l) ->
+  NoDup (hl_entries (hl_remove key_eqb l k)) /\ forall x, In x (hl_entries (hl_remove key_eqb l k)) <-> In x (hl_entries l) /\ x <> k.
+Proof.
+  intros Hnd. pose proof (HListProofs.remove_not_in key_eqb key_eqb_spec l k Hnd) as Hn.
+  destruct (HListProofs.remove_keeps_others key_eqb key_eqb_spec l k) as (X & Y & [[E1 E2]|[E1 _]]).
+  - rewrite E2 in *. rewrite E1 in Hnd. split; [eapply NoDup_remove_1; eauto|]. intros x. rewrite E1, !in_app_iff. cbn [In]. split.
+    + intros H. split; [tauto|]. intros ->. apply Hn. now apply in_or_app.
+    + intros [[H|[H|H]] Hne]; [now left|congruence|now right].
+  - rewrite E1 in *. split; [exact Hnd|]. intros x. split; [intros H; split; [exact H|intros ->; contradiction]|tauto].
+Qed.
+
+Lemma NoDup_map_filter {A B} (g : A -> B) (p : A -> bool) l : NoDup (map g l) -> NoDup (map g (filter p l)).
+Proof.
+  induction l as [|x l IH]; cbn [map filter]; intros H; [constructor|]. inversion H; subst. destruct (p x); cbn [map]; [|auto].
+  constructor; [|auto]. intros X. apply in_map_iff in X as (y & E & Hy). apply filter_In in Hy as [Hy _]. apply H2. rewrite <- E. now apply in_map.
+Qed.
+Lemma NoDup_fst_fun {A B} (l : list (A * B)) o a b : NoDup (map fst l) -> In (o, a) l -> In (o, b) l -> a = b.
+Proof.
+  induction l as [|[o' c] l IH]; cbn [map fst]; intros H Ha Hb; [destruct Ha|]. inversion H; subst.
+  destruct Ha as [Ha|Ha], Hb as [Hb|Hb].
+  - congruence.
+  - inversion Ha; subst. exfalso. apply H2. apply in_map_iff. exists (o, b). auto.
+  - inversion Hb; subst. exfalso. apply H2. apply in_map_iff. exists (o, a). auto.
+  - eauto.
+Qed.
+
+Definition rm_arch (h : hinfo) (a : arch) : arch :=
+  let ls := match h_recv h with
+            | RvTargeted ek => match alookup (fst ek) (a_listeners a) with
+                               | Some l => ainsert (fst ek) (hl_remove key_eqb l (h_key h)) (a_listeners a)
+                               | None => a_listeners a end
+            | RvGlobal _ => a_listeners a end in
+  set_tables a (kset_remove (h_key h) (a_refresh a)) ls.
+Lemma archs_remove_handler_at w h j : arch_at (archs_remove_handler w h) j = option_map (rm_arch h) (arch_at w j).
+Proof.
+  unfold arch_at, archs_remove_handler, slab_get. cbn [w_archs set_archs sl_entries]. rewrite nget_map.
+  destruct (nget (sl_entries (w_archs w)) j) as [[a|n]|]; reflexivity.
+Qed.
+
+Lemma remove_handler_entry_HL w k h hs' hby :
+  HL w -> sm_remove k (w_hs w) = Some (h, hs') ->
+  let gl := match h_recv h with
+            | RvGlobal ek => match nget (w_glists w) (fst ek) with
+                             | Some l => nset (w_glists w) (fst ek) (hl_remove key_eqb l k)
+                             | None => w_glists w end
+            | RvTargeted _ => w_glists w end in
+  HL (archs_remove_handler (set_hreg w hs' gl hby (w_hctr w) (filter (fun p => negb (fst p =? h_order h)) (w_horder w))) h).
+Proof.
+  intros ((S & H1 & H2 & H3 & H4) & L1 & L2) Er. cbn zeta.
+  set (gl := match h_recv h with RvGlobal ek => _ | RvTargeted _ => _ end).
+  set (w2 := set_hreg w hs' gl hby (w_hctr w) (filter (fun p => negb (fst p =? h_order h)) (w_horder w))).
+  pose proof (remove_get_self k (w_hs w) h hs' Er) as Hk. destruct (H1 k h Hk) as (Hkk & Hkin & Hklt).
+  assert (Hgone : sm_get k hs' = None) by (eapply remove_get_gone; eauto).
+  assert (Hoth : forall x, x <> k -> sm_get x hs' = sm_get x (w_hs w)) by (intros; eapply remove_get_other; eauto).
+  assert (Hlive' : forall x h0, sm_get x hs' = Some h0 <-> x <> k /\ sm_get x (w_hs w) = Some h0).
+  { intros x h0. split.
+    - intros X. assert (x <> k) by (intros ->; congruence). split; [assumption|]. now rewrite <- Hoth.
+    - intros [Hne X]. now rewrite Hoth. }
+  set (w3 := archs_remove_handler w2 h).
+  assert (Hhs3 : w_hs w3 = hs') by reflexivity.
+  split.
+  - unfold HInv, hlive. rewrite Hhs3. change (w_horder w3) with (filter (fun p => negb (fst p =? h_order h)) (w_horder w)). change (w_hctr w3) with (w_hctr w).
+    split; [eapply remove_inv; eauto|]. split; [|split; [|split; [now apply NoDup_map_filter|now apply NoDup_map_filter]]].
+    + intros x h0 X. apply Hlive' in X as [Hne X]. destruct (H1 x h0 X) as (A & B & C). split; [exact A|]. split; [|exact C].
+      apply filter_In. split; [exact B|]. cbn [fst]. apply negb_true_iff, N.eqb_neq. intros Eo. apply Hne. rewrite Eo in B. exact (NoDup_fst_fun _ _ _ _ H4 B Hkin).
+    + intros o x Hin. apply filter_In in Hin as [Hin Ho]. cbn [fst] in Ho. apply negb_true_iff, N.eqb_neq in Ho.
+      destruct (H2 o x Hin) as (h0 & X & Eo). exists h0. split; [|exact Eo]. apply Hlive'. split; [|exact X]. intros ->. unfold hlive in X. congruence.
+  - assert (Hlm : forall has idx x, lmatch hs' has idx x <-> x <> k /\ lmatch (w_hs w) has idx x).
+    { intros has idx x. unfold lmatch. split.
+      - intros (h0 & ek & X & Y). apply Hlive' in X as [Hne X]. split; [exact Hne|]. exists h0, ek. auto.
+      - intros [Hne (h0 & ek & X & Y)]. exists h0, ek. split; [apply Hlive'; auto|exact Y]. }
+    split.
+    + enough (G : forall ai a idx, arch_at w3 ai = Some a -> NoDup (listeners_of a idx) /\ forall hk, In hk (listeners_of a idx) <-> lmatch (w_hs w3) (arch_has a) idx hk) by exact G.
+      assert (L1' : forall ai a idx, arch_at w ai = Some a -> NoDup (listeners_of a idx) /\ forall hk, In hk (listeners_of a idx) <-> lmatch (w_hs w) (arch_has a) idx hk) by exact L1.
+      intros ai a3 idx Ha3. unfold w3 in Ha3. rewrite archs_remove_handler_at in Ha3. change (arch_at w2 ai) with (arch_at w ai) in Ha3.
+      destruct (arch_at w ai) as [a|] eqn:Ha; [|discriminate]. injection Ha3 as <-. rewrite Hhs3.
+      change (arch_has (rm_arch h a)) with (arch_has a). destruct (L1' ai a idx Ha) as [Hnd Hm].
+      assert (Hkin_iff : In k (listeners_of a idx) -> exists ek, h_recv h = RvTargeted ek /\ fst ek = idx).
+      { intros X. apply Hm in X as (h0 & ek & X & Y & Z & _). rewrite Hk in X. inversion X; subst h0. eauto. }
+      assert (Hsame : listeners_of (rm_arch h a) idx = listeners_of a idx -> ~ In k (listeners_of a idx) ->
+                NoDup (listeners_of (rm_arch h a) idx) /\ forall hk, In hk (listeners_of (rm_arch h a) idx) <-> lmatch hs' (arch_has a) idx hk).
+      { intros E Hnk. rewrite E. split; [exact Hnd|]. intros x. rewrite Hlm, Hm. split; [|tauto]. intros X. split; [|exact X]. intros ->. apply Hnk. now apply Hm. }
+      destruct (h_recv h) as [ek|ek] eqn:Hr.
+      * apply Hsame; [unfold rm_arch; rewrite Hr; reflexivity|]. intros X. destruct (Hkin_iff X) as (ek' & Y & _). discriminate.
+      * destruct (N.eq_dec (fst ek) idx) as [<-|Hne].
+        -- destruct (alookup (fst ek) (a_listeners a)) as [l|] eqn:El.
+           ++ assert (Ela : listeners_of (rm_arch h a) (fst ek) = hl_entries (hl_remove key_eqb l k)).
+              { unfold rm_arch, listeners_of. rewrite Hr, El. cbn [a_listeners set_tables]. now rewrite alookup_ainsert_eq, Hkk. }
+              assert (Elo : listeners_of a (fst ek) = hl_entries l) by (unfold listeners_of; now rewrite El).
+              rewrite Ela. rewrite Elo in Hnd, Hm. destruct (hl_remove_spec l k Hnd) as [Hnd' Hin']. split; [exact Hnd'|]. intros x. rewrite Hin', Hlm, Hm. tauto.
+           ++ apply Hsame; [unfold rm_arch; rewrite Hr, El; reflexivity|]. unfold listeners_of. rewrite El. intros [].
+        -- apply Hsame.
+           ++ unfold rm_arch, listeners_of. rewrite Hr. cbn [a_listeners set_tables]. destruct (alookup (fst ek) (a_listeners a)); [|reflexivity]. rewrite alookup_ainsert_neq; [reflexivity|]. intros X. apply Hne. now symmetry.
+           ++ intros X. destruct (Hkin_iff X) as (ek' & Y & Z). assert (ek' = ek) by congruence. subst ek'. contradiction.
+    + intros idx. destruct (L2 idx) as [Hnd Hm]. unfold hlive. rewrite Hhs3.
+      assert (Hkin_iff : In k (glist_of w idx) -> exists ek, h_recv h = RvGlobal ek /\ fst ek = idx).
+      { intros X. apply Hm in X as (h0 & ek & X & Y & Z). unfold hlive in X. rewrite Hk in X. inversion X; subst h0. eauto. }
+      assert (Hr' : forall x, (exists h0 ek, sm_get x hs' = Some h0 /\ h_recv h0 = RvGlobal ek /\ fst ek = idx) <-> x <> k /\ In x (glist_of w idx)).
+      { intros x. rewrite Hm. unfold hlive. split.
+        - intros (h0 & ek & X & Y). apply Hlive' in X as [Hne X]. split; [exact Hne|]. exists h0, ek. auto.
+        - intros [Hne (h0 & ek & X & Y)]. exists h0, ek. split; [apply Hlive'; auto|exact Y]. }
+      assert (Hsame : glist_of w3 idx = glist_of w idx -> ~ In k (glist_of w idx) ->
+                NoDup (glist_of w3 idx) /\ forall hk, In hk (glist_of w3 idx) <-> exists h0 ek, sm_get hk hs' = Some h0 /\ h_recv h0 = RvGlobal ek /\ fst ek = idx).
+      { intros E Hnk. rewrite E. split; [exact Hnd|]. intros x. rewrite Hr'. split; [|tauto]. intros X. split; [|exact X]. intros ->. contradiction. }
+      assert (Eg3 : w_glists w3 = gl) by reflexivity.
+      unfold gl in Eg3. destruct (h_recv h) as [ek|ek] eqn:Hr.
+      * destruct (N.eq_dec (fst ek) idx) as [<-|Hne].
+        -- destruct (nget (w_glists w) (fst ek)) as [l|] eqn:El.
+           ++ assert (Elw : glist_of w (fst ek) = hl_entries l) by (unfold glist_of; now rewrite El).
+              assert (El3 : glist_of w3 (fst ek) = hl_entries (hl_remove key_eqb l k)).
+              { unfold glist_of. rewrite Eg3. rewrite nget_nset_eq by (eapply nget_some_lt; eauto). reflexivity. }
+              rewrite Elw in *. rewrite El3. destruct (hl_remove_spec l k Hnd) as [Hnd' Hin']. split; [exact Hnd'|]. intros x. rewrite Hin', Hr'. tauto.
+           ++ apply Hsame; [unfold glist_of; now rewrite Eg3|]. unfold glist_of. rewrite El. intros [].
+        -- apply Hsame.
+           ++ unfold glist_of. rewrite Eg3. destruct (nget (w_glists w) (fst ek)); [|reflexivity]. now rewrite nget_nset_neq by auto.
+           ++ intros X. destruct (Hkin_iff X) as (ek' & Y & Z). assert (ek' = ek) by congruence. subst ek'. contradiction.
+      * apply Hsame; [unfold glist_of; now rewrite Eg3|]. intros X. destruct (Hkin_iff X) as (ek' & Y & _). discriminate.
+Qed.
+
+Section Ops4.
+Variable beh : hinfo -> logent -> N -> script.
+
+Theorem remove_handler_AI k w : AI w -> AI (res_world (remove_handler beh k w)).
+Proof.
+  intros HA. unfold remove_handler. destruct (sm_get k (w_hs w)) as [h0|]; [|exact HA]. clear h0.
+  apply rbind_K; [now apply send_global_AI|]. intros [] w1 HA1. destruct (AI_parts _ HA1) as ([HR1 HK1] & HH1 & HG1).
+  unfold handlers_remove. destruct (sm_remove k (w_hs w1)) as [[h1 hs]|] eqn:Er; [|exact HA1]. cbn [res_world].
+  match goal with |- AI (archs_remove_handler ?w2 h1) =>
+    destruct (archs_remove_handler_structure w2 h1) as [Hs Hg]; split; [split; [split|]|] end.
+  - match goal with |- RInv (archs_remove_handler ?w2 h1) => apply (RInv_structure w2); [exact Hs|exact Hg|exact HR1] end.
+  - match goal with |- KInv (archs_remove_handler ?w2 h1) => apply (KInv_kreg w2); [reflexivity|exact (proj1 (structure_cshape _ _ Hs))|exact HK1] end.
+  - exact (remove_handler_entry_HL w1 k h1 hs _ HH1 Er).
+  - unfold GInv in *. rewrite Hg. exact HG1.
+Qed.
+Lemma remove_handlers_AI ks : forall w, AI w -> AI (res_world (remove_handlers beh ks w)).
+Proof.
+  induction ks as [|k t IH]; intros w HA; cbn [remove_handlers]; [exact HA|].
+  apply rbind_K; [now apply remove_handler_AI|]. intros b w1 HA1. now apply IH.
+Qed.
+
+Lemma AI_same_hl w w' : FInv w' -> w_hs w' = w_hs w -> w_horder w' = w_horder w -> w_hctr w' = w_hctr w -> w_archs w' = w_archs w -> w_glists w' = w_glists w ->
+  SmInv (w_gev w') -> AI w -> AI w'.
+Proof.
+  intros HF A B C D E G HA. destruct (AI_parts _ HA) as (_ & HH & _). split; [split; [exact HF|]|exact G].
+  apply (HL_conv_gl w w'); auto. intros idx. unfold glist_of. now rewrite E.
+Qed.
+
+Theorem remove_global_event_AI k w : AI w -> AI (res_world (remove_global_event beh k w)).
+Proof.
+  intros HA. pose proof (remove_global_event_FInv beh k w (proj1 (proj1 HA))) as HF. unfold remove_global_event in *.
+  destruct (sm_get k (w_gev w)); [|exact HA].
+  assert (X : AI (res_world (send_global beh RFUEL G_RMGE (mkEv 0 0 k) w))) by now apply send_global_AI.
+  destruct (send_global beh RFUEL G_RMGE (mkEv 0 0 k) w) as [[] w1|f w1]; cbn [rbind res_world] in *; [|exact X].
+  match goal with |- context [remove_handlers beh ?ks w1] => pose proof (remove_handlers_AI ks w1 X) as Y; destruct (remove_handlers beh ks w1) as [[] w2|f w2] end; cbn [rbind res_world] in *; [|exact Y].
+  destruct (sm_remove k (w_gev w2)) as [[info m]|] eqn:Er; [|exact Y]. cbn [res_world] in *.
+  apply (AI_same_hl w2); try reflexivity; [exact HF| |exact Y]. cbn [w_gev set_gev]. eapply SlotMap.remove_inv; [exact (proj2 Y)|exact Er].
+Qed.
+
+Theorem remove_targeted_event_AI k w : AI w -> AI (res_world (remove_targeted_event beh k w)).
+Proof.
+  intros HA. pose proof (remove_targeted_event_FInv beh k w (proj1 (proj1 HA))) as HF. unfold remove_targeted_event in *.
+  destruct (sm_get k (w_tev w)); [|exact HA].
+  assert (X : AI (res_world (send_global beh RFUEL G_RMTE (mkEv 0 0 k) w))) by now apply send_global_AI.
+  destruct (send_global beh RFUEL G_RMTE (mkEv 0 0 k) w) as [[] w1|f w1]; cbn [rbind res_world] in *; [|exact X].
+  match goal with |- context [remove_handlers beh ?ks w1] => pose proof (remove_handlers_AI ks w1 X) as Y; destruct (remove_handlers beh ks w1) as [[] w2|f w2] end; cbn [rbind res_world] in *; [|exact Y].
+  destruct (sm_remove k (w_tev w2)) as [[info m]|] eqn:Er; [|exact Y]. cbn [res_world] in *.
+  apply (AI_same_hl w2); try (destruct (e_kind info); reflexivity); [exact HF| |exact Y]. destruct (e_kind info); exact (proj2 Y).
+Qed.
+Lemma remove_tevents_AI ks : forall w, AI w -> AI (res_world (remove_tevents beh ks w)).
+Proof.
+  induction ks as [|k t IH]; intros w HA; cbn [remove_tevents]; [exact HA|].
+  apply rbind_K; [now apply remove_targeted_event_AI|]. intros b w1 HA1. now apply IH.
+Qed.
+End Ops4.
+
+(* ---------- Archetypes::remove_component and World::remove_component ---------- *)
+Lemma rc_step_hreg cidx ctag w ai : hreg (rc_step cidx ctag w ai) = hreg w.
+Proof.
+  unfold rc_step. destruct (slab_get (w_archs w) ai) as [a|]; [|reflexivity]. cbn zeta.
+  rewrite (fold_left_pres hreg); [rewrite (fold_left_pres hreg)|].
+  - change (hreg (notify_remove_with (set_archs w (slab_remove (w_archs w) ai)) ai a) = hreg w). now rewrite hreg_notify_remove_with.
+  - intros w' [e vals]. apply (fold_left_pres hreg). intros w'' [c v]. unfold drop_cval. now destruct (ctag_has_drop _).
+  - intros w' [e vals]. now destruct (sm_remove e (w_ents w')) as [[? ?]|].
+Qed.
+Lemma rc_step_arch_sub cidx ctag w ai j a' : arch_at (rc_step cidx ctag w ai) j = Some a' -> arch_at w j = Some a'.
+Proof.
+  unfold arch_at. destruct (slab_get (w_archs w) ai) as [a|] eqn:Ha; [|unfold rc_step; now rewrite Ha].
+  rewrite (proj1 (proj2 (rc_step_fields cidx ctag w ai a Ha))). unfold slab_remove, slab_get. cbn [sl_entries].
+  destruct (N.eq_dec ai j) as [->|Hne].
+  - rewrite nget_nset_eq; [discriminate|]. unfold slab_get in Ha. destruct (nget (sl_entries (w_archs w)) j) eqn:E; [|discriminate]. eapply nget_some_lt; eauto.
+  - now rewrite nget_nset_neq by auto.
+Qed.
+Lemma rc_step_HL cidx ctag w ai : HL w -> HL (rc_step cidx ctag w ai).
+Proof. apply HL_sub; [apply rc_step_hreg|]. intros j a' H. exists a'. split; [eapply rc_step_arch_sub; eauto|reflexivity]. Qed.
+Lemma strip_HL cidx w : HL w -> HL (strip cidx w).
+Proof.
+  apply HL_sub; [reflexivity|]. intros j a' H. rewrite strip_arch_at in H. destruct (arch_at w j) as [a|]; [|discriminate]. inversion H; subst. exists a. split; reflexivity.
+Qed.
+Lemma archs_remove_component_HL cidx ctag w l : HL w -> HL (archs_remove_component w cidx ctag l).
+Proof.
+  intros H. rewrite archs_remove_component_unfold. apply strip_HL. apply fold_left_invariant; [exact H|]. intros acc y. apply rc_step_HL.
+Qed.
+
+Section Ops5.
+Variable beh : hinfo -> logent -> N -> script.
+
+Theorem remove_component_AI k w : AI w -> AI (res_world (remove_component beh k w)).
+Proof.
+  intros HA. pose proof (remove_component_FInv beh k w (proj1 (proj1 HA))) as HF. unfold remove_component in *.
+  destruct (sm_get k (w_comps w)) as [ci0|]; [|exact HA]. clear ci0.
+  assert (X1 : AI (res_world (send_global beh RFUEL G_RMC (mkEv 0 0 k) w))) by now apply send_global_AI.
+  destruct (send_global beh RFUEL G_RMC (mkEv 0 0 k) w) as [[] w1|f w1]; cbn [rbind res_world] in *; [|exact X1].
+  pose proof (add_targeted_event_AI beh T_DESPAWN w1 X1) as X2.
+  destruct (add_targeted_event beh T_DESPAWN w1) as [dk w2|f w2]; cbn [rbind res_world] in *; [|exact X2].
+  match goal with |- context [flush beh ?q w2] => pose proof (flush_AI beh q w2 X2) as X3; destruct (flush beh q w2) as [[] w3|f w3] end; cbn [rbind res_world] in *; [|exact X3].
+  match goal with |- context [remove_handlers beh ?ks w3] => pose proof (remove_handlers_AI beh ks w3 X3) as X4; destruct (remove_handlers beh ks w3) as [[] w4|f w4] end; cbn [rbind res_world] in *; [|exact X4].
+  destruct (sm_get k (w_comps w4)) as [ci|]; [|exact X4].
+  pose proof (remove_tevents_AI beh (c_ins ci ++ c_rem ci) w4 X4) as X5.
+  destruct (remove_tevents beh (c_ins ci ++ c_rem ci) w4) as [[] w5|f w5]; cbn [rbind res_world] in *; [|exact X5].
+  destruct (sm_remove k (w_comps w5)) as [[ci' m]|]; [|exact X5]. cbn [res_world] in *.
+  destruct (AI_parts _ X5) as (_ & HH5 & HG5). split; [split; [exact HF|]|].
+  - change (HL (archs_remove_component (set_comps w5 m (aremove (c_tag ci') (w_cby w5))) (fst k) (c_tag ci') (c_member_of ci'))).
+    apply archs_remove_component_HL. apply (HL_conv_gl w5); try reflexivity. exact HH5.
+  - unfold GInv in *. unfold refresh_cursor. cbn [w_gev set_res]. rewrite archs_remove_component_unfold. unfold strip. cbn [w_gev set_archs]. now rewrite gev_rc_fold.
+Qed.
+End Ops5.
+
+(* ---------- every reachable world ---------- *)
+Lemma AI_world0 fuel p : AI (world0 fuel p).
+Proof.
+  split; [split; [apply FInv_world0|]|apply empty_inv].
+  unfold HL, HInv, LInv, hlive, glist_of, world0, arch_at. cbn [w_hs w_horder w_hctr w_glists w_archs]. split.
+  - split; [apply empty_inv|]. split; [intros hk h H; discriminate|]. split; [intros o hk []|]. split; constructor.
+  - split.
+    + intros ai a idx Ha. unfold slab_get in Ha. cbn [sl_entries nget] in Ha. destruct (ai =? 0); [|discriminate]. inversion Ha; subst.
+      unfold listeners_of. cbn. split; [constructor|]. intros hk. split; [intros []|intros (h & ek & H & _); discriminate].
+    + intros idx. cbn [nget]. split; [constructor|]. intros hk. split; [intros []|intros (h & ek & H & _); discriminate].
+Qed.
+
+Lemma run_top_all_AI beh w o : AI w -> AI (run_top_all beh w o).
+Proof.
+  intros HA. destruct o as [o|k]; cbn [run_top_all]; [|now apply remove_component_AI]. destruct o; cbn [run_top].
+  - now apply op_spawn_AI. - now apply op_insert_AI. - now apply op_remove_AI. - now apply op_despawn_AI.
+  - now apply op_send_AI. - now apply op_send_to_AI. - now apply add_handler_AI. - now apply remove_handler_AI.
+  - now apply add_component_AI. - now apply add_global_event_AI. - now apply add_targeted_event_AI.
+  - now apply remove_global_event_AI. - now apply remove_targeted_event_AI.
+Qed.
+
+Theorem reachable_AI beh fuel p ops : AI (fold_left (run_top_all beh) ops (world0 fuel p)).
+Proof. apply fold_left_invariant; [apply AI_world0|]. intros w o. apply run_top_all_AI. Qed.
+
+(* ---------- C08 / C15: which handlers a delivery runs ---------- *)
+(* the handler list used by deliver_one for a targeted event *)
+Definition delivered_to (w : world) (it : qitem) : list key :=
+  if qi_targeted it then
+    match sm_get (qi_target it) (w_ents w) with
+    | Some loc => match slab_get (w_archs w) (fst loc) with
+                  | Some a => listeners_of a (qi_idx it)
+                  | None => [] end
+    | None => [] end
+  else glist_of w (qi_idx it).
+
+Theorem delivered_to_exact w it : HL w ->
+  NoDup (delivered_to w it) /\
+  forall hk, In hk (delivered_to w it) <->
+    if qi_targeted it then
+      exists loc a h ek, sm_get (qi_target it) (w_ents w) = Some loc /\ arch_at w (fst loc) = Some a /\
+        hlive w hk h /\ h_recv h = RvTargeted ek /\ fst ek = qi_idx it /\ ca_matches (arch_has a) (h_filter h) = true
+    else exists h ek, hlive w hk h /\ h_recv h = RvGlobal ek /\ fst ek = qi_idx it.
+Proof.
+  intros (_ & L1 & L2). unfold delivered_to. destruct (qi_targeted it).
+  - destruct (sm_get (qi_target it) (w_ents w)) as [loc|]; [|split; [constructor|]; intros hk; split; [intros []|intros (loc & a & h & ek & X & _); discriminate]].
+    destruct (slab_get (w_archs w) (fst loc)) as [a|] eqn:Ha; [|split; [constructor|]; intros hk; split; [intros []|intros (loc' & a & h & ek & X & Y & _); inversion X; subst; unfold arch_at in Y; congruence]].
+    destruct (L1 (fst loc) a (qi_idx it) Ha) as [Hnd Hm]. split; [exact Hnd|]. intros hk. rewrite Hm. split.
+    + intros (h & ek & A & B & C & D). exists loc, a, h, ek. split; [reflexivity|]. split; [exact Ha|]. split; [exact A|]. split; [exact B|]. split; [exact C|exact D].
+    + intros (loc' & a' & h & ek & X & Y & A & B & C & D). inversion X; subst loc'. unfold arch_at in Y. rewrite Ha in Y. inversion Y; subst a'. exists h, ek. split; [exact A|]. split; [exact B|]. split; [exact C|exact D].
+  - exact (L2 (qi_idx it)).
+Qed.
